@@ -298,6 +298,9 @@ pub struct Ctx {
     pub extra: Map<String, Value>,
     pub rng_state: Option<[u64; 4]>,
     pub miri: bool,
+    /// the last few inputs of the byte stream (oldest first): the context of a violation that
+    /// depends on what was parsed before
+    pub recent: Vec<Vec<u8>>,
 }
 
 pub const MAX_WITNESS_PER_CLAUSE: usize = 12;
@@ -325,6 +328,7 @@ impl Ctx {
             extra: Map::new(),
             rng_state: None,
             miri: cfg!(miri),
+            recent: Vec::new(),
         }
     }
     pub fn quick(&self) -> bool {
@@ -387,6 +391,14 @@ impl Ctx {
         true
     }
     /// Record a (minimised) violation; duplicates (same clause + same witness) are dropped.
+    /// Called by the byte stream before each input is judged.
+    pub fn remember(&mut self, b: &[u8]) {
+        if self.recent.len() >= 4 {
+            self.recent.remove(0);
+        }
+        self.recent.push(b[..b.len().min(256)].to_vec());
+    }
+
     pub fn add_violation(&mut self, clause: &str, witness: Value, original: Value, detail: String) {
         let key = format!("{}|{}", clause, witness);
         if !self.viol_keys.insert(key) {
@@ -421,6 +433,16 @@ impl Ctx {
             self.count_dyn(&format!("violation:{}", f.clause));
             if self.may_minimise(&f.clause) {
                 let clause = f.clause.as_str();
+                // does the failure reproduce on this input alone? if not, it depends on the calls made before it
+                let alone = checker(input).iter().any(|g| g.clause == clause);
+                if !alone {
+                    let mut w = bytes_json(input);
+                    let ctxt: Vec<Value> = self.recent.iter().filter(|p| p.as_slice() != input).map(|p| bytes_json(p)).collect();
+                    w["preceded_by"] = Value::Array(ctxt);
+                    let detail = format!("[not reproducible on this input alone: depends on the preceding calls, see witness.preceded_by] {}", f.detail);
+                    self.add_violation(clause, w, Value::Null, detail);
+                    continue;
+                }
                 let min = shrink_bytes(input, &mut |c: &[u8]| checker(c).iter().any(|g| g.clause == clause));
                 let detail = checker(&min)
                     .into_iter()
